@@ -3,6 +3,7 @@
 package basic
 
 import (
+	"errors"
 	"strings"
 	"time"
 
@@ -62,13 +63,25 @@ func (u *verifUsersT) UpdateAuthRecord(uid types.Uid, authLvl auth.Level, scheme
 	return nil
 }
 
-// password hashing is not the subject (and far too expensive to execute symbolically): hash = password
+// password hashing is far too expensive to execute symbolically; the model keeps what bcrypt documents about its
+// input: GenerateFromPassword refuses more than 72 bytes, and the hash depends on the first 72 bytes only (the
+// comparison ignores whatever follows). Within 72 bytes the model is injective (hash = password).
 //
 //verif:override golang.org/x/crypto/bcrypt.GenerateFromPassword
-func verifBcryptGen(password []byte, cost int) ([]byte, error) { return append([]byte{}, password...), nil }
+func verifBcryptGen(password []byte, cost int) ([]byte, error) {
+	if len(password) > 72 {
+		return nil, verifErrTooLong
+	}
+	return append([]byte{}, password...), nil
+}
+
+var verifErrTooLong = errors.New("bcrypt: password length exceeds 72 bytes")
 
 //verif:override golang.org/x/crypto/bcrypt.CompareHashAndPassword
 func verifBcryptCmp(hash, password []byte) error {
+	if len(password) > 72 {
+		password = password[:72]
+	}
 	if string(hash) == string(password) {
 		return nil
 	}
@@ -116,5 +129,43 @@ func Harness_C12_basic_login_unique() {
 	verifAssert(err != nil, "wrong-password-never-authenticates")
 	_, _, err = a.Authenticate([]byte("nobody:pwd111"), "")
 	verifAssert(err != nil, "unknown-login-never-authenticates")
+	verifReach("end")
+}
+
+// Long passwords: whatever password a user managed to set (registration or update), only that very password
+// authenticates - a guess that differs from it anywhere, also beyond the 72nd byte, is refused.
+func Harness_C12_basic_long_password() {
+	users := &verifUsersT{}
+	store.Users = users
+	a := &authenticator{name: "basic", minPasswordLength: 3, minLoginLength: 2}
+	base := strings.Repeat("p", 70)
+	n := 70 + verifChoose("extraLen", 5) // 70..74 bytes
+	pw := base
+	for i := 70; i < n; i++ {
+		pw += verifNondetString("tail", 1, 1, "xy")
+	}
+	var err error
+	if verifNondetBool("viaUpdate") {
+		_, err = a.AddRecord(&auth.Rec{Uid: 1}, []byte("alice:short1"), "")
+		verifAssert(err == nil, "registration-accepted")
+		_, err = a.UpdateRecord(&auth.Rec{Uid: 1}, []byte("alice:"+pw), "")
+	} else {
+		_, err = a.AddRecord(&auth.Rec{Uid: 1}, []byte("alice:"+pw), "")
+	}
+	if err != nil {
+		// a password that cannot be stored is refused outright, nothing to log in with
+		verifReach("end")
+		return
+	}
+	rec, _, err := a.Authenticate([]byte("alice:"+pw), "")
+	verifAssert(err == nil && rec != nil && rec.Uid == 1, "owner-authenticates-with-its-password")
+	m := 70 + verifChoose("guessExtraLen", 6)
+	guess := base
+	for i := 70; i < m; i++ {
+		guess += verifNondetString("guessTail", 1, 1, "xy")
+	}
+	verifAssume(guess != pw)
+	_, _, err = a.Authenticate([]byte("alice:"+guess), "")
+	verifAssert(err != nil, "wrong-password-never-authenticates")
 	verifReach("end")
 }
